@@ -95,7 +95,7 @@ def run_c20(chk: Check) -> int:
     for c in cases:
         recs.append(rec_parse(c["form"], c["groups"], bytes(c["text"]).decode()))
     chk.cov["behaviours_replayed"] = len(cases)
-    for _ in range(2000 if quick else 30000):
+    for _ in range(2000 if quick else 120000):
         g = rand_groups(rng)
         recs.append(rec_parse("reduced", g, reduced(g)))
         if all(x != NONE for x in g):
@@ -126,7 +126,7 @@ def run_c20(chk: Check) -> int:
             b[i] = (a[i] + 1) % 256
             recs.append(rec_eq(a, b))
     alphabet = "0123456789.-:* abzXY\t"
-    for _ in range(3000 if quick else 40000):
+    for _ in range(3000 if quick else 150000):
         s = "".join(rng.choice(alphabet) for _ in range(rng.randint(0, 6)))
         recs.append(rec_malformed(s))
     for s in ("", ".", "..", "1.", ".1", "1-", "1:2", "a.b", "1 .2", "1. 2", "12", "1-2:3", "*", "1*2", "255", "1..2", "1-.2", "-:.", "1.a", "a1.2"):
